@@ -21,6 +21,7 @@ pub mod c17;
 pub mod c18;
 pub mod c19;
 pub mod c20;
+pub mod miri;
 pub mod sess;
 pub mod typed;
 
@@ -51,6 +52,9 @@ pub fn lookup(id: &str) -> Option<Box<dyn Property>> {
 }
 
 /// Child-process modes (`--child <mode>`); returns the exit code if one was handled.
-pub fn child_dispatch(_cfg: &Cfg) -> Option<i32> {
+pub fn child_dispatch(cfg: &Cfg) -> Option<i32> {
+    if let Some(which) = cfg.extra_val("--miri-stage") {
+        return Some(miri::inside(cfg, which));
+    }
     None
 }
